@@ -93,7 +93,8 @@ def spec_code(spec):
 def _block_src(j, name, tp, fault):
     kind = _kind(tp, name)
     src = "{% block " + name + (" required" if kind == "r" else "") + " %}"
-    src += "[T%d.%s:{{ %s }}" % (j, name, _var(j, name))
+    # {{ q }} is the loop variable of a {% for q in xs %} wrapper in the root (wrap "f"); undefined otherwise
+    src += "[T%d.%s:{{ %s }}{{ q }}" % (j, name, _var(j, name))
     if _has_loop(j, name):
         src += "{% for i in xs %}{{ i }}{% endfor %}"
     if kind == "s":
@@ -172,13 +173,14 @@ def flatten(spec, s, t, k, n):
     for name in NAMES:
         defs[name] = [(j, tpls[j - 1]) for j in range(L, 0, -1) if _kind(tpls[j - 1], name) != "o"]
     reached = set()
+    qv = [""]
 
     def render_def(name, idx, depth):
         if depth > 16:
             raise _Recursive()
         j, tp = defs[name][idx]
         kind = _kind(tp, name)
-        out = "[T%d.%s:" % (j, name) + vals[_var(j, name)]
+        out = "[T%d.%s:" % (j, name) + vals[_var(j, name)] + qv[0]
         if _has_loop(j, name):
             out += digits
         if kind == "s":
@@ -209,7 +211,8 @@ def flatten(spec, s, t, k, n):
         elif root[4] == "i":
             reps = 1 if k > 0 else 0
         body = ""
-        for _ in range(reps):
+        for rep in range(reps):
+            qv[0] = str(rep) if root[4] == "f" else ""
             first = True
             for name in _top_level(root):
                 if not first:
